@@ -86,9 +86,16 @@ pub fn run(ctx: &Ctx) -> i32 {
                 c.g.funcs.clear();
                 c.printed = crate::print::print(&c.g.prog, &Style::plain(), &mut Rng::new(1));
             }
+            if k % 4 == 3 {
+                // valid programs with odd semantics (retargeted jumps, stack-pointer games, reserved names)
+                c.g.prog = crate::hostile::semantic_mutant(&mut rng);
+                c.g.funcs.clear();
+                c.printed = crate::print::print(&c.g.prog, &Style::plain(), &mut Rng::new(1));
+            }
             let special = k % 4 == 1;
+            let mutant = k % 4 == 3;
             acc.evaluations += 1;
-            let shape_name = if special { "trap-handler-or-shared-tails" } else { match shape {
+            let shape_name = if special { "trap-handler-or-shared-tails" } else if mutant { "semantic-mutant" } else { match shape {
                 0 => "jump-into-function",
                 1 => "fall-through-into-function",
                 2 | 3 => "conforming",
